@@ -196,13 +196,14 @@ PROPS["C01"]["rule"] += "; poollin stage: concurrent histories (3-8 goroutines, 
 PROPS["C01"]["assumptions"] = PROPS["C01"]["assumptions"] + ["poollin stage: per-key register model (bind = write-if-absent, unbind = clear, keyed pick = read); porcupine timeouts are inconclusive"]
 PROPS["C02"]["stages"].append(stress_stage({"C02": ["C02.stress-quiescent-zero", "stress.placed", "C02.stress-balanced-fill"]}))
 PROPS["C07"]["stages"].append(stress_stage({"C07": ["C07.stress-one-replacement", "C07.stress-concurrent-timeouts"]}))
+PROPS["C20"]["stages"].append(stress_stage({"C20": ["C20.stress-update-during-refresh-create"]}))
 PROPS["C03"]["stages"].append(stress_stage({"C03": ["C03.stress-max", "C03.slow-factory-grow"]}))  # the gate scenario's counter is not essential: after a refactoring its site may not exist (then it is inconclusive)
 PROPS["C09"]["stages"].append(stress_stage({"C09": ["C09.stress-exact", "C09.stress-bind-picks"]}))
 PROPS["C05"]["stages"].append(dict(name="stream", engine="stream", test="TestVerifStream", batches=dict(quick=8, thorough=16),
                                   essential={"C05": ["C12.not-created-at-construction", "C12.bystander:before-send"]}, timeout=dict(quick=900, thorough=7200)))
 PROPS["C05"]["stages"].append(dict(stress_stage({"C05": ["C05.stress-no-crash", "stress.placed"]}), crash_props=["C05"]))
 PROPS["C06"]["stages"].append(stress_stage({"C06": ["C06.stress-finished", "stress.placed"]}))
-for _p in ("C02", "C03", "C05", "C06", "C07", "C09"):
+for _p in ("C02", "C03", "C05", "C06", "C07", "C09", "C20"):
     PROPS[_p]["assumptions"] = PROPS[_p]["assumptions"] + ["poolstress stage: real goroutines (1 serialized callback goroutine, 12 pick goroutines, 5 completer goroutines), yield-site schedule perturbation; invariants are read at quiescence / under the balancer's own lock"]
     PROPS[_p]["rule"] += "; poolstress stage: concurrent executions (distinct = configuration and run index)"
 
